@@ -25,21 +25,23 @@ import (
 //	mut     — fixture Fixture with the 8-byte field at Off overwritten by Val
 //	fixture — fixture Fixture unchanged
 //	raw     — Raw bytes as they are (fuzz crashers, hand-made probes)
+//	struct  — an archive (Fixture, or the well-formed Elems) with one element-level mutation (Struct)
 //	index   — a valid index with a header mutation and a table mutation combined (Idx)
 //	enum    — a batch of enumeration cases by index (crash journal of TestEnum)
 type Case struct {
-	Target  string   `json:"target"`
-	Form    string   `json:"form"`
-	Elems   []Elem   `json:"elems,omitempty"`
-	Fixture string   `json:"fixture,omitempty"`
-	Cut     int      `json:"cut,omitempty"`
-	Off     int      `json:"off,omitempty"`
-	Val     uint64   `json:"val,omitempty"`
-	Raw     []byte   `json:"raw,omitempty"`
-	Idx     *IdxCase `json:"idx,omitempty"`   // form "index": header x table mutation of a valid index
-	Enum    []int    `json:"enum,omitempty"`  // form "enum": indexes into the enumeration (batch journal of TestEnum)
-	Src     string   `json:"src,omitempty"`   // source kind handed to the entry point (default guard)
-	Drain   string   `json:"drain,omitempty"` // catar decoders: what the caller does with a payload reader (none/part/all)
+	Target  string    `json:"target"`
+	Form    string    `json:"form"`
+	Elems   []Elem    `json:"elems,omitempty"`
+	Fixture string    `json:"fixture,omitempty"`
+	Cut     int       `json:"cut,omitempty"`
+	Off     int       `json:"off,omitempty"`
+	Val     uint64    `json:"val,omitempty"`
+	Raw     []byte    `json:"raw,omitempty"`
+	Struct  *StructOp `json:"struct,omitempty"` // form "struct": element-level mutation of Fixture (or of Elems)
+	Idx     *IdxCase  `json:"idx,omitempty"`    // form "index": header x table mutation of a valid index
+	Enum    []int     `json:"enum,omitempty"`   // form "enum": indexes into the enumeration (batch journal of TestEnum)
+	Src     string    `json:"src,omitempty"`    // source kind handed to the entry point (default guard)
+	Drain   string    `json:"drain,omitempty"`  // catar decoders: what the caller does with a payload reader (none/part/all)
 }
 
 // input materialises the bytes and what is known about them.
@@ -50,6 +52,12 @@ func (c Case) input() ([]byte, known, error) {
 		return b, k, nil
 	case "raw":
 		return c.Raw, known{}, nil
+	case "struct":
+		if c.Target != "archive" && c.Target != "untar" {
+			return nil, known{}, fmt.Errorf("form struct needs an archive target")
+		}
+		b, _, _, err := c.structInput()
+		return b, known{}, err
 	case "index":
 		if c.Idx == nil || (c.Target != "index" && c.Target != "indexput") {
 			return nil, known{}, fmt.Errorf("form index needs idx and an index target")
@@ -191,6 +199,9 @@ func genCase(t *rapid.T) Case {
 		x := genIdxCase(t)
 		return Case{Target: c.Target, Form: "index", Idx: &x}
 	}
+	if (c.Target == "archive" || c.Target == "untar") && rapid.IntRange(0, 9).Draw(t, "structform") < 3 {
+		return genStructCase(t, c.Target)
+	}
 	d := targetDomain(c.Target)
 	var types []string
 	shape := rapid.IntRange(0, 9).Draw(t, "shape")
@@ -291,6 +302,8 @@ func describe(c Case, in []byte, k known, r res) map[string]any {
 		m["fixture"], m["off"], m["val"] = c.Fixture, c.Off, fmt.Sprintf("%#x", c.Val)
 	case "fixture":
 		m["fixture"] = c.Fixture
+	case "struct":
+		m["fixture"], m["op"] = c.Fixture, fmt.Sprintf("%s@%d/%d", c.Struct.Op, c.Struct.At, c.Struct.Arg)
 	case "index":
 		m["idx"] = fmt.Sprintf("n=%d max=%s min=%s avg=%s flags=%s tab=%s at=%d", c.Idx.N, c.Idx.Max, c.Idx.Min, c.Idx.Avg, c.Idx.Flags, c.Idx.Tab, c.Idx.At)
 	}
@@ -401,6 +414,29 @@ func run(c Case) (o hx.Outcome) {
 			o.Class("trunc-in-payload:stream:" + how)
 		}
 	}
+	if c.Form == "struct" {
+		_, label, ref, lenient, _ := c.structInput2()
+		demand := structDemand(ref, lenient)
+		o.Class("archive:struct-mutation:" + label)
+		switch {
+		case !ref.Broken:
+			o.Class("archive:struct:reference-accepts")
+		case demand:
+			o.Class("archive:struct:reference-refuses", "archive:struct:ref:"+ref.Code)
+		default:
+			o.Class("archive:struct:only-strict-reference-refuses", "archive:struct:no-demand:"+label+":"+ref.Code)
+		}
+		if !r.Unsafe && r.Panic == nil && r.Err == nil {
+			switch {
+			case demand:
+				o.Fail("C19:"+c.Target+":clean-end-on-malformed"+tag, "%s reports a clean end after %d nodes of a stream that is not an archive (%s: reference finding %s at offset %d of %d bytes, it could follow %d nodes)",
+					c.Target, r.Calls, label, ref.Code, ref.Off, len(in), ref.Nodes)
+			case !ref.Broken && r.Calls < ref.Nodes:
+				o.Fail("C19:"+c.Target+":clean-end-before-end-of-archive"+tag, "%s reports a clean end after %d nodes, the reference decoder finds %d nodes in this well-formed archive (%s, %d bytes)",
+					c.Target, r.Calls, ref.Nodes, label, len(in))
+			}
+		}
+	}
 	if c.Form == "index" {
 		_, _, tags := c.Idx.build()
 		hdr := "normal-header-max"
@@ -509,7 +545,11 @@ func validOpt(target string, o opt) bool {
 }
 
 var requiredClasses = func() []string {
-	req := []string{"form:elems", "form:trunc", "form:mut", "form:fixture", "form:index",
+	req := []string{"form:elems", "form:trunc", "form:mut", "form:fixture", "form:index", "form:struct",
+		"archive:struct-mutation:drop-payload", "archive:struct-mutation:drop-symlink", "archive:struct-mutation:drop-device", "archive:struct-mutation:drop-filename",
+		"archive:struct-mutation:drop-entry", "archive:struct-mutation:drop-goodbye", "archive:struct-mutation:dup-entry", "archive:struct-mutation:dup-payload",
+		"archive:struct-mutation:swap", "archive:struct-mutation:mode-type-changed", "archive:struct-mutation:move-goodbye-up", "archive:struct-mutation:move-goodbye-down",
+		"archive:struct:reference-accepts", "archive:struct:reference-refuses",
 		"index:decreasing-offset:huge-header-max", "index:decreasing-offset:normal-header-max", "index:oversize-chunk", "index:equal-offset:huge-header-max",
 		"index:zero-offset", "index:table-size", "index:tail", "index:tail-unchecked-field", "body:shorter", "body:longer", "body:natural",
 		"known-malformed", "malformed:size", "malformed:trunc", "outcome:error", "outcome:accepted"}
@@ -733,6 +773,11 @@ func enumCases() ([]Case, error) {
 		return nil, err
 	}
 	out := append(gridCases(), idxEnumCases()...)
+	sc, err := structEnumCases()
+	if err != nil {
+		return nil, err
+	}
+	out = append(out, sc...)
 	do := func(c Case) { out = append(out, c) }
 	bodyVals := []uint64{0, 1, 1 << 21, sizeHuge48, 1 << 63, ^uint64(0)}
 	ti := 0
